@@ -27,8 +27,16 @@ def install_renderer(name):
     import nbdime.prettyprint as pp
     import shutil
 
+    # "git+colorui": git as the renderer on a machine whose git configuration
+    # says color.ui = always (the environment form of `git config --global`)
+    import os
+    for k_ in ("GIT_CONFIG_COUNT", "GIT_CONFIG_KEY_0", "GIT_CONFIG_VALUE_0"):
+        os.environ.pop(k_, None)
+    if name == "git+colorui":
+        os.environ.update(GIT_CONFIG_COUNT="1", GIT_CONFIG_KEY_0="color.ui", GIT_CONFIG_VALUE_0="always")
+
     def which(x, *a, **k):
-        if name == "git":
+        if name.startswith("git"):
             return shutil.which(x)
         if name == "diff":
             return None if x == "git" else shutil.which(x)
@@ -143,7 +151,7 @@ def make_render_diff(templates, renderer="git", lo=0, hi=64, colors=(0, 1), word
         E.goal("nonempty-diff", len(d) > 0)
         text = render_checks(E, "diff", lambda: pretty_print_notebook_diff("a.ipynb", "b.ipynb", a, d, cfg),
                              out, use_color, props, known, (a, b),
-                             word_diff=(renderer == "git" and use_color and cfg.color_words))
+                             word_diff=(renderer.startswith("git") and use_color and cfg.color_words))
         if text is None:
             return
         if "C16" in props:
@@ -242,6 +250,10 @@ def shards(tier, props, known, lite=False):
             out.append(("make_render_diff", "rd-acts-%s-%s-%d" % (rnd, t, mask),
                         dict(templates=(t,), renderer=rnd, lo=mask, hi=mask + 1, colors=(0, 1), words=(0,),
                              actions="ACTIONS_FULL", **kw)))
+    for t in ("codeA", "mdAtt"):
+        out.append(("make_render_diff", "rd-acts-gitcolorui-%s" % t,
+                    dict(templates=(t,), renderer="git+colorui", lo=63, hi=64, colors=(0,), words=(0, 1),
+                         actions="ACTIONS_RENDER", sym=("ec",), **kw)))
     for rnd in RENDERERS:
         out.append(("make_render_diff", "rd-patho-%s" % rnd,
                     dict(templates=("codeP",), renderer=rnd, lo=63, hi=64, colors=(0, 1), words=(0, 1),
